@@ -94,7 +94,7 @@ template<class A> static void removebase_event(const Text&st,const Text&bt,int m
 
 static std::vector<Text> abs_universe(bool rich){
   std::vector<const char*> sc={"s:","t:"}, au={"","//h","//u@h","//h:1","//g","//[::1]","//1.2.3.4"}, qs={"","?q"};
-  std::vector<const char*> ph={"","/","/a","/a/b","/a/","/b","/a/c","/a:b","//x","/a//b","/a/b/c","/a/b/","/a//","//","/x/a/b"};
+  std::vector<const char*> ph={"","/","/a","/a/b","/a/","/b","/a/c","/a:b","//x","/a//b","/a/b/c","/a/b/","/a//","//","/x/a/b","/a/1:2","/:"};
   std::vector<const char*> pn={"","/","/a","/a/b","/a/","a","a/b","b","a/","a:b/c","/a:b","a//b","a/b/c","/a/c","a/c"};
   if(rich){ for(const char*x:{"//v@h","//h:2","//H","//[::0:1]","//[v1.a]","//1.2.3.5","//","//h:","//@h","//u@h:1"}) au.push_back(x); qs.push_back("?"); qs.push_back("?r");
     for(const char*x:{"/a/../b","/.","/a/..","/../a","/a/./b","/a/b/c/d","/a/b//","///","/a:b/c:d","/c/a/b","/a/b/c/","/%61/b"}) ph.push_back(x);
@@ -114,13 +114,13 @@ VH_DRIVER(algebra){
       AW(true,k%2,[&]{ addbase_event<ApiA>(r,b,opt,(int)(k%3)); },[&]{ addbase_event<ApiW>(r,b,opt,(int)(k%3)); });
       if(k%5003==0) g.sample(J().str("ref",show(r)).str("base",show(b)).num("opt",opt).done()); }
     // longer random paths
-    const char* segs[]={"",".","..","a","b","b:c","%2e","..."}; long extra= g.thorough? 200000: 4000;
+    const char* segs[]={"",".","..","a","b","b:c","%2e","1:2"}; long extra= g.thorough? 200000: 4000;
     for(long i=0;i<extra;++i){ Text r; if(R.below(6)==0) r=T("s:"); if(R.below(5)==0) r.push_back('/'); int n=1+R.below(10); for(int j=0;j<n;++j){ if(j) r.push_back('/'); r=r+T(segs[R.below(8)]); } if(R.below(4)==0) r=r+T("?q"); if(R.below(4)==0) r=r+T("#f");
       const Text&b=bases[R.below((int)bases.size())]; AW(true,i%2,[&]{ addbase_event<ApiA>(r,b,(int)(i%2),(int)(i%3)); },[&]{ addbase_event<ApiW>(r,b,g.pair?(int)(i%2):0,(int)(i%3)); }); }
   } else if(mode=="normalize"){
     std::vector<Text> in;
     { std::vector<const char*> sc={"","s:","S:","hTtP:"}, au={"","//","//h","//H%41%7e%3a%3A","//u%3a%41@Ex.COM:1","//[ABCD::1]","//[vF.A:b]","//1.2.3.4","//U:P@h","//u%3A%7e@h%3A%2d"}, qf={"","?","?a%41%7E%3a","#","#F%2f%2F%61","?q#f","?%3A%7E%3a#%3A%61"};
-      std::vector<const char*> alpha={"",".","..","a","A","%41","%7e","%7E","%3a","%3A","%2e","%2E","b:c","%2E%2e","a%4","...","..a","%3A%61","%3A%3a%41","%2E%2E%2e"};
+      std::vector<const char*> alpha={"",".","..","a","A","%41","%7e","%7E","%3a","%3A","%2e","%2E","b:c","%2E%2e","a%4","...","..a","%3A%61","%3A%3a%41","%2E%2E%2e","1:2",":","a_b:c"};
       auto paths=seg_seqs(alpha,g.thorough?3:2);
       for(auto s:sc) for(auto a:au) for(int ab=0;ab<2;++ab) for(auto&sg:paths) { bool nosegs=sg.size()==1&&sg[0]==1; if(*a&&!ab&&!nosegs) continue; const char*q=qf[(in.size())%7]; Text t=T(s)+T(a); if(ab) t.push_back('/'); if(!nosegs) t=t+sg; t=t+T(q); in.push_back(t); } }
     static const unsigned masks[]={63,0,1,2,4,8,16,32,8|4,63^8,1|32,0x40|8,0xFFFFFFFFu,0x40,0x100};
@@ -128,7 +128,7 @@ VH_DRIVER(algebra){
     for(auto&t:in){ int nm= g.thorough?64:6; for(int mi=0;mi<nm;++mi){ ++k; if(keep<1.0 && (R.next()%1000000)>=keep*1000000) continue; unsigned m= g.thorough? (unsigned)mi : masks[(k+mi)%15];
         bool owned=(k%2)==0; int ep=(int)(k%3); AW(true,k%4<2,[&]{ normalize_event<ApiA>(t,m,owned,ep); },[&]{ normalize_event<ApiW>(t,m,owned,ep); });
         if(k%3001==0) g.sample(J().str("uri",show(t)).num("mask",m).boo("owned",owned).done()); } }
-    { const char* segs[]={"",".","..","..","a","%41","b:c","...","..a","%2e%2E","%3A%61"}; long extra= g.thorough? 100000: 2500;
+    { const char* segs[]={"",".","..","..","a","%41","b:c","...","..a","%2e%2E","1:2"}; long extra= g.thorough? 100000: 2500;
       for(long i=0;i<extra;++i){ Text r; int kind=R.below(8); if(kind==0) r=T("s:"); else if(kind==1) r=T("//h"); if(kind==1||R.below(5)==0) r.push_back('/'); int n=1+R.below(9); for(int j=0;j<n;++j){ if(j) r.push_back('/'); r=r+T(segs[R.below(11)]); }
         unsigned m= (i%3)? 63u : 8u; AW(true,i%2,[&]{ normalize_event<ApiA>(r,m,(i%4)<2,(int)(i%3)); },[&]{ normalize_event<ApiW>(r,m,(i%4)<2,(int)(i%3)); }); } }
   } else if(mode=="c09"){
@@ -151,7 +151,7 @@ VH_DRIVER(algebra){
     // non-absolute operands: the two dedicated error codes
     for(const char*x:{"//h/a","/a","a","","?q"}) for(const char*y:{"s://h/a","//h/a","a"}) for(int md=0;md<2;++md){ AW(true,true,[&]{ removebase_event<ApiA>(T(x),T(y),md,0); },[&]{ removebase_event<ApiW>(T(x),T(y),md,0); }); AW(true,false,[&]{ removebase_event<ApiA>(T(y),T(x),md,1); },[&]{ removebase_event<ApiW>(T(y),T(x),md,1); }); }
     // longer random paths sharing prefixes of random length
-    { const char* segs[]={"a","b","c","","a:b","%41","x"}; long extra= g.thorough? 150000: 3000; const char* auths[]={"","//h","//h","//u@h:1","//g"};
+    { const char* segs[]={"a","b","c","","a:b","1:2","x"}; long extra= g.thorough? 150000: 3000; const char* auths[]={"","//h","//h","//u@h:1","//g"};
       for(long i=0;i<extra;++i){ const char*au=auths[R.below(5)]; Text pre; int np=R.below(5); bool abs=*au||R.below(3)>0; for(int j=0;j<np;++j){ pre=pre+T(segs[R.below(7)]); pre.push_back('/'); }
         auto tail=[&](){ Text t; int n=R.below(4); for(int j=0;j<n;++j){ if(j) t.push_back('/'); t=t+T(segs[R.below(7)]); } return t; };
         auto mk=[&](const char*a2){ Text t=T("s:")+T(a2); if(abs) t.push_back('/'); t=t+pre+tail(); if(R.below(4)==0) t=t+T("?q"); return t; };
@@ -159,7 +159,7 @@ VH_DRIVER(algebra){
   } else if(mode=="equals"){
     // objects that differ in exactly one component (incl. absent vs empty), plus objects produced by resolution / normalization
     std::vector<Text> pool; for(const char*s:{"s://u@h:1/a/b?q#f","t://u@h:1/a/b?q#f","s://v@h:1/a/b?q#f","s://@h:1/a/b?q#f","s://h:1/a/b?q#f","s://u@g:1/a/b?q#f","s://u@h:2/a/b?q#f","s://u@h:/a/b?q#f","s://u@h/a/b?q#f","s://u@h:1/a/c?q#f","s://u@h:1/a/b/?q#f","s://u@h:1/a?q#f","s://u@h:1?q#f","s://u@h:1/?q#f","s://u@h:1/a/b?r#f","s://u@h:1/a/b?#f","s://u@h:1/a/b#f","s://u@h:1/a/b?q#g","s://u@h:1/a/b?q#","s://u@h:1/a/b?q",
-        "s:/a","s:a","/a","a","s:","s:/","","/","//h","//h/","//","///","s://","s:///","//1.2.3.4","//1.2.3.5","//[::1]","//[0:0:0:0:0:0:0:1]","//[::2]","//[2001:db8::1]","//[2001:db8::2]","//[::1.2.3.4]","//[::102:304]","//[v1.a]","//[v1.b]","//[V1.a]","//H","//h","s:a/b","s:a//b","s:a/b/","a/b","a//b","./a","a/.","?","#","?#","s:?","s:#",
+        "s:/a","s:a","/a","a","s:","s:/","","/","//h","//h/","//","///","s://","s:///","//1.2.3.4","//1.2.3.5","//[::1]","//[0:0:0:0:0:0:0:1]","//[::2]","//[2001:db8::1]","//[2001:db8::2]","//[::1.2.3.4]","//[::102:304]","//[v1.a]","//[v1.b]","//[V1.a]","//v1.a","//v1.b","//V1.a","//H","//h","s:a/b","s:a//b","s:a/b/","a/b","a//b","./a","a/.","?","#","?#","s:?","s:#",
         "//h:8080/","//h:8443/","//example.com","//example.co","s://h/%41","s://h/A","S://h/a","s://h/a"}) pool.push_back(T(s));
     if(g.thorough) for(auto&r:refs) if(R.below(8)==0) pool.push_back(r);
     std::vector<std::shared_ptr<Holder<ApiA>>> A; std::vector<std::shared_ptr<Holder<ApiW>>> Wd; std::vector<std::string> names;
